@@ -10,13 +10,15 @@ where
 {
     fn clone(&self) -> Self {
         let mut m = Self::new();
-        m.len = self.len;
         m.pairs
             .iter_mut()
             .zip(self.pairs[..self.len].iter())
             .for_each(|(dst, src)| unsafe {
                 dst.write(src.assume_init_ref().clone());
             });
+        // publish the length only once every element is in place: if a `clone()`
+        // panics, the partially built map is dropped with `len == 0`
+        m.len = self.len;
         m
     }
 }
